@@ -200,7 +200,7 @@ Section Roundtrip.
     resolve p' (ann_path k) = Some val /\ wf_along p' (ann_path k) = true.
   Proof.
     unfold store_marker. intros H R W.
-    destruct (negb (String.eqb prefix "") && negb (str_prefix_of "kopf." prefix)); [|injection H as <-; tauto].
+    destruct (negb (String.eqb prefix "") && negb (known_without_marker prefix)); [|injection H as <-; tauto].
     set (mk := (prefix ++ "/" ++ marker_name)%string) in *.
     destruct (resolve_strict body ["metadata"; "annotations"; mk]) eqn:Eb;
       destruct (resolve_strict patch ["metadata"; "annotations"; mk]) eqn:Ep;
@@ -237,7 +237,7 @@ Section Roundtrip.
   Lemma store_marker_ann_only prefix body p p' : ann_only p -> store_marker prefix body p = Ok p' -> ann_only p'.
   Proof.
     unfold store_marker. intros A H.
-    destruct (negb (String.eqb prefix "") && negb (str_prefix_of "kopf." prefix)); [|injection H as <-; exact A].
+    destruct (negb (String.eqb prefix "") && negb (known_without_marker prefix)); [|injection H as <-; exact A].
     set (mk := (prefix ++ "/" ++ marker_name)%string) in *.
     destruct (resolve_strict body ["metadata"; "annotations"; mk]); destruct (resolve_strict p ["metadata"; "annotations"; mk]);
       try discriminate; try (injection H as <-; exact A).
@@ -304,7 +304,7 @@ Section Roundtrip.
     store_marker prefix body p = Ok p' -> resolve p' (ann_path k') = resolve p (ann_path k').
   Proof.
     unfold store_marker. intros N H.
-    destruct (negb (String.eqb prefix "") && negb (str_prefix_of "kopf." prefix)); [|injection H as <-; reflexivity].
+    destruct (negb (String.eqb prefix "") && negb (known_without_marker prefix)); [|injection H as <-; reflexivity].
     set (mk := (prefix ++ "/" ++ marker_name)%string) in *.
     destruct (resolve_strict body ["metadata"; "annotations"; mk]); destruct (resolve_strict p ["metadata"; "annotations"; mk]);
       try discriminate; try (injection H as <-; reflexivity).
